@@ -120,6 +120,13 @@ def main():
         nat("flag_" + nm.lower(), flags, r"const " + nm + r" = (0x[0-9a-fA-F]+);")
     nat("seconds1970_to2k", dtntime, r"pub const SECONDS1970_TO2K: u64 = ([\d_]+);")
     nat("ms1970_to2k", dtntime, r"const MS1970_TO2K: u64 = ([\d_]+);")
+    # ---- C07: decisions of Bundle::validate
+    vb = fn_body(bundle, "validate") or ""
+    m = re.search(r"if (self\.primary\.creation_timestamp\.dtntime\(\) == 0 && [^{]*?)\{", vb)
+    txt("validate_age_rule", re.sub(r"\s+", "", m.group(1)) if m else None)
+    ev = fn_body(canonical, "extension_validation") or ""
+    m = re.search(r"if self\.block_number != (\d+)", ev)
+    facts.append(("payload_block_number_rule", "nat", num(m.group(1)) if m else None))
     # ---- emit
     lines = ["/- GENERATED by tools/extract.py from /repo/src — do not edit. -/", "namespace Bp7.Extracted", ""]
     for name, kind, v in facts:
